@@ -1,12 +1,14 @@
 #!/bin/sh
-# usage: tools/recheck_seeds.sh [name pattern]  — re-runs the quick check of every kept seeded change against a scratch copy
-# of /repo with the change applied, and refreshes check_result in its meta.json (the demonstrations are not re-run).
+# usage: tools/recheck_seeds.sh [name pattern] [parallel jobs]  — re-runs the quick check of every kept seeded change against
+# a scratch copy of /repo with the change applied, and refreshes check_result in its meta.json (the demonstrations are not
+# re-run). CHECK-ERROR means the check did not run to its summary line (never counted as a detection).
 cd /verif
-for d in seeded/${1:-*}/; do
+one() {
+  d=$1
   name=$(basename "$d"); prop=$(python3 -c "import json;print(json.load(open('$d/meta.json'))['breaks_property'])")
   scr=$(mktemp -d /tmp/govc-seed.XXXXXX)
   rsync -a --exclude .git /repo/ "$scr"/
-  if ! (cd "$scr" && patch -p1 -s < "/verif/$d/patch.diff"); then echo "PATCH-FAILED $name"; rm -rf "$scr"; continue; fi
+  if ! (cd "$scr" && patch -p1 -s < "/verif/$d/patch.diff"); then echo "PATCH-FAILED $name"; rm -rf "$scr"; return; fi
   chk=$(VERIF_REPO="$scr" ./check "$prop" quick 2>&1)
   nv=$(echo "$chk" | grep -c '^VIOLATION')
   echo "$chk" | grep -q ' quick: [0-9]* obligations' || { echo "CHECK-ERROR $name: $(echo "$chk" | tail -2)"; nv=-1; }
@@ -18,6 +20,8 @@ m=json.load(open(p))
 m['check_result']={"command":f"VERIF_REPO=<patched copy> ./check {prop} quick","violations":int(nv),"failed_obligations":obl}
 json.dump(m,open(p,'w'),indent=1)
 PY
-  echo "$name $prop violations=$nv"
+  echo "$name $prop violations=$nv $(echo "$obl" | cut -c1-160)"
   rm -rf "$scr"
-done
+}
+if [ "${1:-}" = "--one" ]; then one "$2"; exit 0; fi
+ls -d seeded/${1:-*}/ | xargs -P "${2:-3}" -n 1 "$0" --one
